@@ -302,8 +302,28 @@ def cal_rules(facts, rep):
     failed = [p for p in ps if any(v == 1 and re.search(r"^discr\(.*" + CTORS, a) for a, v in p["decisions"])]
     good = not bad and len(have) == 3 and len(failed) >= 3 and all(outcome(p)[0] in ("Err", "ErrProp") for p in failed) \
         and all(outcome(p)[0] in ("Ok", "Err", "ErrProp") for p in ps)
-    return rep.check(good, rule, "to_time-propagates", where(f, f.span), "Month::try_from / Date::from_calendar_date / Time::from_hms errors are all returned to the caller",
-                     "to_time() can panic or drops a constructor error: %s (failing-constructor paths: %s)" % (bad, [outcome(p)[0] for p in failed]))
+    ok = rep.check(good, rule, "to_time-propagates", where(f, f.span), "Month::try_from / Date::from_calendar_date / Time::from_hms errors are all returned to the caller",
+                   "to_time() can panic or drops a constructor error: %s (failing-constructor paths: %s)" % (bad, [outcome(p)[0] for p in failed]))
+    # the calendar constructors are the only range checks to_time has: each must be handed the stored field itself (a lossless
+    # widening or the Month conversion apart).  A clamp, a rollover or any other arithmetic on the way in turns an out-of-range
+    # stored value into a *different valid* one instead of the constructor's error, so to_time/try_from stop being mutual inverses.
+    ex = Ex(f)
+    WANT = {"from_calendar_date": ("year", "month", "day"), "from_hms": ("hour", "minute", "second")}
+    for cname, fields in WANT.items():
+        for bi, t in calls_matching(f, r"::%s$" % cname):
+            for i, fld in enumerate(fields):
+                e = norm(ex.operand(t["args"][i], (bi, None))) if i < len(t["args"]) else ("?",)
+                leaves = [n for n in walk(e) if n[0] == "field" and n[1] == ("arg", 1, "self")]
+                arith = [n for n in walk(e) if n[0] in ("bin", "un", "phi")]
+                calls_in = [n for n in walk(e) if n[0] == "call" and not re.search(r"try_from$|::from$|::into$", str(n[1]))]
+                verbatim = [l[2] for l in leaves] == [fld] and not arith and not calls_in
+                ok &= rep.check(verbatim, rule, "to_time-passes-%s-verbatim" % fld, where(f, t["span"]),
+                                "%s(..) receives self.%s unmodified (%s)" % (cname, fld, show(e)[:60]),
+                                "to_time() hands %s(..) `%s` where the stored field self.%s is expected: the constructor's range check is the only "
+                                "validation of the stored value, so a modified argument is answered with a different timestamp instead of Err "
+                                "(to_time and try_from are no longer mutually inverse)" % (cname, show(e)[:120], fld))
+    rep.floor(rule, 7, "to_time: error propagation + six constructor arguments")
+    return ok
 
 
 def run(ctx, rep):
